@@ -216,6 +216,22 @@ def run(ctx):
             base.method, base.prediv, base.fac32 = 'inverse', False, True
             base.hyper['inv_update_steps'] = 1
             directed = True
+        if b % 4 == 3:
+            # directed corner: gradients kept in place between steps (zero_grad(set_to_none=False)), layers without bias (the
+            # written-back gradient is then the very tensor the layer handed over), a clip that does not bind in the first
+            # steps (nu = 1 exactly) and binds afterwards, few gradient workers: receivers and workers still agree (C02-mutU
+            # reused one receive buffer, which after an unclipped step IS the parameter's .grad)
+            from fractions import Fraction
+            base.keepgrad = True
+            base.arch = [('lin', a_[1], a_[2], False) if a_[0] == 'lin' else a_ for a_ in base.arch]
+            if not any(a_[0] == 'lin' for a_ in base.arch):
+                d = [rng.choice([2, 3, 4]) for _ in range(4)]
+                base.arch = [('lin', d[j], d[j + 1], False) for j in range(3)]
+            base.hyper['kl_clip'] = [Fraction(10**6), Fraction(10**6), Fraction(1, 10**5), Fraction(1, 10**4)]
+            base.hyper['lr'] = Fraction(1, 10)
+            base.k = 1
+            base.nest = False
+            directed = True
         for _ in range(rng.randrange((7 if b % 4 == 1 else 4) if directed else 2, ctx.budget(9 if b % 4 == 1 else 6, 10))):
             base.ops += ['f1'] * base.accum + ['s']
             if rng.random() < 0.2:
